@@ -26,6 +26,7 @@ def check(run):
     attrs(run, p)
     snapshot(run, p)
     encfallback(run, p)
+    globs(run, p)
     run.assume('file names of scripts and encodings are made of characters that need no escaping in Python source')
     run.trust('repr() of a str is a valid Python expression denoting it; os.path functions are pure')
 
@@ -519,3 +520,41 @@ def encfallback(run, p):
     run.ob('C11-ENCODING', '%s::%s::emits-filetype-encoding' % (ws.rel, ws.short), '.encoding' in src and 'encoding=' in src,
            'write_script emits encoding= from the FileType object', fn=ws, nontrivial=False)
     run.floor('C11-ENCODING', n, 1)
+
+
+def globs(run, p):
+    from .common import must_pass, names_in
+    run.rule('C11-GLOBS', 'a wildcard argument never stays among the reference files (it names no file and would make copying and script '
+                          'writing fail): every path through add_globs stores self.reference_files[run] with the set of patterns '
+                          'subtracted - also when no pattern matched anything')
+    f = p.method('TestGenerator', 'add_globs')
+    # the set that collects the patterns: added to under the wildcard test
+    pats = set()
+    for x in p.own_nodes(f):
+        if isinstance(x, ast.Call) and isinstance(x.func, ast.Attribute) and x.func.attr == 'add' and isinstance(x.func.value, ast.Name):
+            pats.add(x.func.value.id)
+    if not pats:
+        raise AnalysisError('add_globs no longer collects the wildcard patterns in a set')
+
+    def event(s):
+        if not isinstance(s, ast.Assign):
+            return False
+        if not any(norm(t).startswith('self.reference_files[') for t in s.targets):
+            return False
+        for x in ast.walk(s.value):
+            if isinstance(x, ast.BinOp) and isinstance(x.op, ast.Sub) and names_in(x.right) & pats:
+                return True
+            if isinstance(x, ast.Call) and isinstance(x.func, ast.Attribute) and x.func.attr == 'difference' and x.args and \
+                    names_in(x.args[0]) & pats:
+                return True
+        return False
+    bad = must_pass(f, event)
+    # leaving early because there was no pattern at all leaves nothing to remove
+    bad = [(k, node, atoms) for k, node, atoms in bad if not any(('not %s' % q) in (atoms or '') for q in pats)]
+    if not bad:
+        run.ob('C11-GLOBS', '%s::%s' % (f.rel, f.short), True, 'every path removes the patterns %s from the reference files' % sorted(pats), fn=f)
+    for k, node, atoms in bad:
+        run.ob('C11-GLOBS', '%s::%s::exit[%s]' % (f.rel, f.short, atoms[:60]), False,
+               'add_globs can finish with the wildcard patterns still among the reference files (path: %s)' % (atoms or 'unconditional'),
+               fn=f, node=node if hasattr(node, 'lineno') else None)
+    run.floor('C11-GLOBS', 1, 1)
